@@ -216,12 +216,14 @@ cmplx_t mean(const arr_cmplx& arr) {
 //-------------------------------------------------------------------------------------------------
 real_t stddev(const arr_real& arr) {
     real_t m = mean(arr);
-    return rms(arr - m);
+    const int n = arr.size();
+    return rms(arr - m) * std::sqrt(real_t(n) / (n - 1));   //sample standard deviation (n - 1)
 }
 
 real_t stddev(const arr_cmplx& arr) {
     auto m = mean(arr);
-    return rms(arr - m);
+    const int n = arr.size();
+    return rms(arr - m) * std::sqrt(real_t(n) / (n - 1));   //sample standard deviation (n - 1)
 }
 
 //-------------------------------------------------------------------------------------------------
@@ -343,7 +345,7 @@ real_t rms(const arr_real& arr) {
     for (int i = 0; i < n; ++i) {
         sum += (arr[i] * arr[i]);
     }
-    return std::sqrt(sum / (n - 1));
+    return std::sqrt(sum / n);
 }
 
 real_t rms(const arr_cmplx& arr) {
@@ -353,7 +355,7 @@ real_t rms(const arr_cmplx& arr) {
         sum += (arr[i].re * arr[i].re);
         sum += (arr[i].im * arr[i].im);
     }
-    return std::sqrt(sum / (n - 1));
+    return std::sqrt(sum / n);
 }
 
 //-------------------------------------------------------------------------------------------------
